@@ -341,7 +341,10 @@ class DesignGen:
       r = rng.random()
       if r < 0.18 * 2 * struct_p:
         st = self.pick_struct(flat_only=yos and not is_top)   # yosys: a child's struct input is in output direction for the parent
-        ins.append(Sig(f'in{i}', 'in', ('s', st))); self.features.add('struct-in')
+        nn = None
+        if rng.random() < 0.4 and (is_top or not yos):         # a LIST of struct ports (yosys: top-level inputs only)
+          nn = rng.choice([2, 3]); self.features.add('struct-port-list-in')
+        ins.append(Sig(f'in{i}', 'in', ('s', st), n=nn)); self.features.add('struct-in')
       elif r < 0.18 * 2 * struct_p + 0.12:
         nn = rng.choice([2, 3, 4, 2, (2, 3), (3, 2)])
         ins.append(Sig(f'in{i}', 'in', ('b', rng.choice([2, 4, 8, 8])), n=nn)); self.features.add('port-array-in' + ('-2d' if not isinstance(nn, int) else ''))
@@ -417,6 +420,13 @@ class DesignGen:
       d.append(f'    fb = Bits{w}({v})'); fb = Ref('fb', w, 'const', sliceable=False); self.features.add('closure-bits')
     for pn, _ in c.params:
       consts.append((pn, 7)); self.features.add('ctor-param')      # usable wherever an int < 8 fits (values 0..7 are passed)
+      # constants of the INSTANCE derived from the constructor parameter, read through attributes / constant subscripts
+      d.append(f'    s.KP = {pn} + 1'); consts.append(('s.KP', 8))
+      d.append(f'    s.KPB = Bits4( {pn} + 2 )')
+      d.append(f'    s.TAB = [ Bits4( {pn} ), Bits4( 15 - {pn} ) ]')
+      self.features.add('instance-const-from-param')
+    c.param_refs = [Ref('s.KPB', 4, 'const', sliceable=False), Ref('s.TAB[0]', 4, 'const', sliceable=False),
+                    Ref('s.TAB[1]', 4, 'const', sliceable=False)] if c.params else []
     c.consts, c.kb, c.fb = consts, kb, fb
     return c
 
@@ -429,10 +439,16 @@ class DesignGen:
     nchild = 0
     if c.level < self.opts.get('depth', 2) and rng.random() < self.opts.get('child', 0.55):
       nchild = rng.randint(1, 2) if c.level == 0 else 1      # keep the flattened design small (the Lean store is a list)
+    prev = None
     for k in range(nchild):
-      self.uid += 1
-      ch = self.build_comp(f'Sub{self.uid}', c.level + 1, False)
-      self.finish_comp(ch, False)
+      if prev is not None and prev.params and rng.random() < 0.6:
+        ch = prev                                  # a second instance of the same class, constructed with another parameter
+        self.features.add('same-class-two-instances')
+      else:
+        self.uid += 1
+        ch = self.build_comp(f'Sub{self.uid}', c.level + 1, False)
+        self.finish_comp(ch, False)
+      prev = ch
       n = None
       # a list of identical sub-components (struct-free in yosys: finding F10d)
       has_struct_in = any(s.T[0] == 's' for s in ch.ins)
@@ -457,6 +473,7 @@ class DesignGen:
     scope.consts = list(c.consts)
     if c.kb: scope.refs.append(c.kb)
     if c.fb: scope.refs.append(c.fb)
+    scope.refs += getattr(c, 'param_refs', [])
     for s in c.ins: add_readable(scope, s.path, s.T, s.n)
     sel = next((s for s in c.ins if s.name == 'sel'), None)
     wide = [s for s in c.ins if s.T[0] == 'b' and s.n is None and s.T[1] >= 8 and s.path == 's.' + s.name]
